@@ -24,8 +24,8 @@ using sim::Rng;
 
 namespace {
 
-enum OpKind : uint16_t { kValidStep, kCall, kBadBind, kBadAlign, kBadEmbedLabel, kBadEmbedDelta, kBadSection, kBadNamedLabel, kBadEmbedArray, kA64Form, kX86ShortJump, kX86Locked, kX86ZMask, kTooManyOperands, kDetachedEmit, kX86AbsAddr, kX86BadRegId, kX86FarJcc, kOpCount };
-const char* const kOpNames[kOpCount] = {"valid_step", "call", "bad_bind", "bad_align", "bad_embed_label", "bad_embed_label_delta", "bad_section", "bad_named_label", "bad_embed_array", "a64_form", "x86_short_jump", "x86_locked", "x86_zmask", "too_many_operands", "detached_emit", "x86_abs_addr", "x86_bad_reg_id", "x86_far_jcc"};
+enum OpKind : uint16_t { kValidStep, kCall, kBadBind, kBadAlign, kBadEmbedLabel, kBadEmbedDelta, kBadSection, kBadNamedLabel, kBadEmbedArray, kA64Form, kX86ShortJump, kX86Locked, kX86ZMask, kTooManyOperands, kDetachedEmit, kX86AbsAddr, kX86BadRegId, kX86FarJcc, kBadSetOffset, kOpCount };
+const char* const kOpNames[kOpCount] = {"valid_step", "call", "bad_bind", "bad_align", "bad_embed_label", "bad_embed_label_delta", "bad_section", "bad_named_label", "bad_embed_array", "a64_form", "x86_short_jump", "x86_locked", "x86_zmask", "too_many_operands", "detached_emit", "x86_abs_addr", "x86_bad_reg_id", "x86_far_jcc", "bad_set_offset"};
 const char* op_name(uint16_t k) { return k < kOpCount ? kOpNames[k] : "?"; }
 
 enum HandlerMode { kHandlerNone = 0, kHandlerRecording, kHandlerThrowing, kHandlerModeCount };
@@ -624,6 +624,21 @@ CallResult perform(Subject& s, const gen::Program& prog, const Op& op, bool* mus
         r.err = e.emit(jcc[size_t(uint64_t(op.a[0]) % 5)], Imm(t));
         break;
       }
+      case kBadSetOffset: {
+        // Assembler::set_offset() beyond the end of the section's content (within the buffer's capacity or far outside)
+        if (s.emitter_kind != 0) break;
+        BaseAssembler& as = static_cast<BaseAssembler&>(e);
+        size_t size = as.current_section()->buffer_size(), cap = as.current_section()->buffer().capacity();
+        static const size_t beyond[] = {1, 2, 7, 16, 100};
+        size_t n;
+        switch (uint64_t(op.a[0]) % 4) { case 0: n = size + beyond[size_t(uint64_t(op.a[1]) % 5)]; break; case 1: n = cap > size ? cap : size + 1; break; case 2: n = cap + 1; break; default: n = SIZE_MAX - size_t(uint64_t(op.a[1]) % 3); break; }
+        *must_fail_out = true; s.last_must_fail_other = true;
+        size_t offset_before = as.offset();
+        r.err = as.set_offset(n);
+        if (r.err == Error::kOk) (void)as.set_offset(offset_before);
+        else SIM_CHECK(as.offset() == offset_before, "c14:failed-call-changed-state", "a refused set_offset(%zu) moved the cursor from %zu to %zu", n, offset_before, as.offset());
+        break;
+      }
       case kTooManyOperands: {
         // emit_op_array() with more operands than an instruction can have, while one-shot state is pending
         Operand ops[8];
@@ -886,7 +901,7 @@ Plan generate(uint64_t seed, bool thorough) {
         op.a[3] = int64_t(r.below(2));
       }
       else {
-        static const uint16_t ks[] = {kBadBind, kBadAlign, kBadEmbedLabel, kBadEmbedDelta, kBadSection, kBadNamedLabel, kBadEmbedArray, kX86ShortJump, kX86Locked, kX86ZMask, kTooManyOperands, kDetachedEmit, kX86AbsAddr, kX86BadRegId, kX86FarJcc};
+        static const uint16_t ks[] = {kBadBind, kBadAlign, kBadEmbedLabel, kBadEmbedDelta, kBadSection, kBadNamedLabel, kBadEmbedArray, kX86ShortJump, kX86Locked, kX86ZMask, kTooManyOperands, kDetachedEmit, kX86AbsAddr, kX86BadRegId, kX86FarJcc, kBadSetOffset};
         op.kind = r.pick(ks);
         if ((op.kind == kX86ShortJump || op.kind == kX86Locked || op.kind == kX86ZMask || op.kind == kX86AbsAddr || op.kind == kX86BadRegId || op.kind == kX86FarJcc) && target == 2) op.kind = kBadAlign;
         op.a[0] = r.chance(1, 2) ? int64_t(r.below(8)) : -int64_t(1 + r.below(8)); op.a[1] = r.chance(1, 2) ? int64_t(r.below(8)) : -int64_t(1 + r.below(8)); op.a[2] = int64_t(r.below(100));
